@@ -780,17 +780,12 @@ class AndMaybeMatcher(AdditiveBiMatcher):
         if not b.is_active():
             return a.skip_to_quality(minquality)
 
-        skipped = 0
-        aq = a.block_quality()
-        bq = b.block_quality()
-        while a.is_active() and b.is_active() and aq + bq < minquality:
-            if aq < bq:
-                skipped += a.skip_to_quality(minquality - bq)
-                aq = a.block_quality()
-            else:
-                skipped += b.skip_to_quality(minquality - aq)
-                bq = b.block_quality()
-
+        # As in UnionMatcher, a posting of one sub-matcher may only be passed
+        # over if it cannot reach the minimum quality together with the best
+        # remaining posting of the other sub-matcher
+        skipped = a.skip_to_quality(minquality - b.max_quality())
+        if a.is_active():
+            skipped += b.skip_to_quality(minquality - a.max_quality())
         return skipped
 
     def weight(self):
